@@ -202,6 +202,7 @@ class Contract:
     trusted: bool = False  # assumed, not verified (external)
     locals: dict[str, str] = field(default_factory=dict)  # type hints for locals where inference fails
     hints: list[str] = field(default_factory=list)  # facts proved then assumed just before the postcondition
+    at: dict[str, list[str]] = field(default_factory=dict)  # cut points: statement text (ast.unparse) -> facts proved, then assumed, right after that statement; a key that matches no statement is simply not used
     decreases: str = ""
     old_names: dict[str, str] = field(default_factory=dict)
     generator: bool = False  # verified as the list of yielded values
@@ -532,7 +533,8 @@ class Engine:
     def base_assertions(self) -> list[Any]:
         opt = set((self.cur_contract.prelude if self.cur_contract is not None else None) or getattr(self, "cur_prelude", None) or [])
         out = [f for nm, f in self.pre.axioms
-               if not (nm.endswith((".idx_app_left", ".idx_app_right", ".idx_app_last")) and "idx_app_rev" not in opt)]
+               if not (nm.endswith((".idx_app_left", ".idx_app_right", ".idx_app_last")) and "idx_app_rev" not in opt)
+               and not (nm.endswith(".count_witness") and "count_witness" not in opt)]
         hidden = set((self.cur_contract.hide if self.cur_contract is not None else None) or getattr(self, "cur_hide", None) or [])
         out += [f for nm, f in self.spec_axioms if nm.split(".")[1] not in hidden]
         out += [f for _, f in self.lemma_axioms]
@@ -932,6 +934,13 @@ class Engine:
                 return r if isinstance(op, ast.Is) else z3.Not(r)
             if isinstance(a.ty, RecTy) and a.ty == b.ty:
                 return a.t == b.t if isinstance(op, ast.Is) else a.t != b.t
+            # an Optional[record] against a record (or another Optional of it): identical when present and the same object
+            for (x, y) in ((a, b), (b, a)):
+                if isinstance(x.ty, OptTy) and isinstance(x.ty.inner, RecTy) and y.ty == x.ty.inner:
+                    r = z3.And(z3.Not(self.pre.opt_is_none(x.ty, x.t)), self.pre.opt_val(x.ty, x.t) == y.t)
+                    return r if isinstance(op, ast.Is) else z3.Not(r)
+            if isinstance(a.ty, OptTy) and isinstance(a.ty.inner, RecTy) and a.ty == b.ty:
+                return a.t == b.t if isinstance(op, ast.Is) else a.t != b.t
             raise Unsupported("is-comparison", n)
         if isinstance(op, (ast.In, ast.NotIn)):
             r = self.contains(b, a, st)
@@ -1045,6 +1054,22 @@ class Engine:
         raise Unsupported(f"subscript on {obj.ty}", n)
 
     def e_List(self, n: ast.List, st: State) -> V:
+        if any(isinstance(e, ast.Starred) for e in n.elts):
+            # [*xs, y, *zs]: the concatenation of the unpacked sequences and the single elements, in order
+            parts: list[V] = []
+            for e in n.elts:
+                if isinstance(e, ast.Starred):
+                    parts.append(self.as_seq(self.expr(e.value, st), st))
+                else:
+                    v1 = self.expr(e, st)
+                    parts.append(self.seq_lit(SeqTy(v1.ty), [v1]))
+            ty0 = next((p.ty for p in parts if not getattr(p, "empty_lit", False)), None)
+            if ty0 is None:
+                raise Unsupported("list display of empty literals only", n)
+            acc = self.coerce(parts[0], ty0)
+            for p in parts[1:]:
+                acc = self.seq_app(acc, self.coerce(p, ty0))
+            return acc
         items = [self.expr(e, st) for e in n.elts]
         if not items:
             v = V(None, SeqTy(ANY))
